@@ -1,0 +1,5 @@
+//go:build !verif
+
+package factory
+
+func verifScanYield(componentName string) {}
